@@ -23,6 +23,9 @@ package otp
 //@       before Body.Read(PageLogin) -> (?vals, ?re) :: re == nil && p == val(vals, "GetPID") &&
 //@          (exists m int :: 0 <= m && m < otp_count(OTPs(u)) &&
 //@              sha512(val(vals, "GetPassword")) == b64std_dec(otp_entry(OTPs(u), m)))
+//@   -- C12/C02: the matched one-time password is consumed (saved) before any login event is
+//@   -- fired - the 2FA hijack may park the login and another handler completes it later
+//@   ensures[C12,C02] consumed_before_events: each Fire("Before", _, _, _, _) => before Store.Save(_) -> ?e :: e == nil
 //@   ensures[C01] halfauth_cleared: each Sess.Put("uid", _) => after Sess.Del("halfauth")
 //@   ensures[C01] only_uid: each Sess.Put(?k, _) => k == "uid"
 //@   ensures[C02] hijack_fired: each Sess.Put("uid", ?v) =>
@@ -37,10 +40,12 @@ package otp
 //@   -- C16: same as the password flow - a handled first event adds nothing observable; unknown
 //@   -- account and wrong one-time password get the same answer
 //@   ensures[C16] handled_adds_nothing: (emits Fire(_, _, _, _, _) -> (?hd, ?e) :: hd && e == nil && !(before Fire(_, _, _, _, _))) ==>
-//@       (result == nil && !emits Respond(_, _, _) && !emits Redirect(_) && !emits Sess.Put(_, _) && !emits Sess.Del(_) && !emits Cook.Put(_, _) && !emits Cook.Del(_))
+//@       (result == nil && !emits Respond(_, _, _) && !emits Redirect(_) && !emits Sess.Put(_, _) && !emits Sess.Del(_) && !emits Cook.Put(_, _) && !emits Cook.Del(_) &&
+//@        !emits HeaderSet(_, _, _) && !emits WriteHeader(_, _) && !emits Write(_, _) && !emits HTTPRedirect(_, _, _))
 //@   ensures[C16] unknown_vs_wrong: each Respond(?code, ?page, ?data) =>
 //@       (code == 200 && page == PageLogin && maplen(data) == 1 && mapget(data, DataErr) == loc(o.Authboss, TxtInvalidCredentials) &&
-//@        !emits Sess.Put(_, _) && !emits Sess.Del(_) && !emits Cook.Put(_, _) && !emits Cook.Del(_) && !emits Redirect(_))
+//@        !emits Sess.Put(_, _) && !emits Sess.Del(_) && !emits Cook.Put(_, _) && !emits Cook.Del(_) && !emits Redirect(_) &&
+//@        !emits HeaderSet(_, _, _) && !emits WriteHeader(_, _) && !emits Write(_, _) && !emits HTTPRedirect(_, _, _))
 //@
 //@ func (*OTP).AddPost
 //@   property C12 C13 C17 C18
